@@ -9,10 +9,21 @@ Implementation driven (real code from $VERIF_REPO/src):
 Model: coq/theories/C14_Model.v; theorems: C14_Props.v.
 
 A case is an operation history.  After construction and after every operation the
-runner records: list contents, find() for each of the 3 names, index()/`in` for a
+runner records: list contents, find() for each name of the case - asked once with a
+highdicom CodedConcept and once with an equal pydicom Code tuple -, index()/`in` for a
 set of probe items, get_nodes(), the two flags, and the error class of the operation.
 The oracle is a plain Python list driven with the interpreter's own list
 operations plus a recomputed filter; it never looks at the model.
+
+Concept names: 3 base codes x {no coding scheme version, '1.0', '2.0'} x {CodeValue,
+LongCodeValue}; two names are the same name iff designator, value and version agree
+(CodedConcept / Code __eq__), whatever the meaning and whichever class carries them.
+
+Kind 'multi' is a history over a FAMILY of sequences: sequences constructed from other
+sequences - ContentSequence(seq, is_root, is_sr), item.ContentSequence = seq
+(ContentItem.__setattr__), copy.deepcopy(seq), seq.find(name), seq.get_nodes() - with
+operations on any member in any order; after every step every member is observed and
+judged against a plain list of its own (model: run_multi, theorems C14_family_*).
 """
 import os
 import sys
@@ -30,23 +41,35 @@ ORACLE_PREMISES = [
     'assignment / deletion, list.index) are as re-modelled in C14_Model.v (validated on every run: kind "slice" '
     'and every history)',
     'Dataset.__eq__ on content items is structural equality of the modelled attributes (validated: kind "eq")',
-    'CodedConcept.__eq__/__hash__ make a name key of (scheme designator, code value) (validated: find by Code, '
-    'CodedConcept and differently spelled meanings)',
+    'CodedConcept / pydicom Code __eq__ and __hash__ make ONE dictionary key of every name class (scheme designator, '
+    'code value, scheme version; meaning ignored), whichever of the two classes carries the name (validated after '
+    'every step: find by CodedConcept AND by an equal Code, for names with and without scheme version, short and '
+    'long code values, differently spelled meanings, sibling versions of the same code)',
+    'a ContentSequence constructed from another one (constructor, ContentItem.__setattr__, deepcopy, find, get_nodes) '
+    'shares no mutable state with it - it is the model\'s fresh __init__ state (validated: kind "multi", every member '
+    'observed after every step)',
 ]
 MODELLED = ('sr/value_types.py ContentSequence.__init__, append, extend, __iadd__, insert, __setitem__, '
             '__delitem__, index, __contains__, find, get_nodes, is_root, is_sr, from_sequence, _check_dataset, '
             '_assert_value_type / ContentItem._from_dataset_base (TEXT, CONTAINER), and the inherited '
-            'MutableSequence methods pop, remove, reverse, clear, count (pydicom Sequence = Python list, '
+            'MutableSequence methods pop, remove, reverse, clear, count; families of sequences: ContentSequence(seq), '
+            'ContentItem.__setattr__("ContentSequence", seq), copy.deepcopy(seq), find / get_nodes results used as '
+            'sequences of their own (pydicom Sequence = Python list, '
             're-modelled; ContentItem abstracted to is-item/name/relationship/container/node/payload, a dataset '
             'to is-Dataset/value type/required attribute/name/relationship/children/payload)')
-STRATA = ['hist_sr', 'hist_root', 'hist_nonsr', 'init_err', 'init_via', 'fromseq', 'eq', 'slice']
+STRATA = ['hist_sr', 'hist_root', 'hist_nonsr', 'init_err', 'init_via', 'fromseq', 'eq', 'slice', 'multi']
 RULE = ('operations: append, extend, +=, seq.extend(seq), seq += seq (under a 5 s alarm), insert, setitem/delitem (int, slice), '
         'pop, remove, reverse, clear; construction by '
         '__init__ (list / another ContentSequence) and by from_sequence (plain Datasets, copy or in place, 7 kinds of '
         'malformed dataset, wrong relationship state); '
         'random operation histories (length <= 12, plus systematic 2-operation histories) over items with 3 names '
         'x 2 spellings x 3 relationship states x container/text x node/leaf x small payloads (so equal items '
-        'recur) on root / non-root SR / non-SR sequences; boundary-biased positions and slices (None, 0, +-len, '
+        'recur) on root / non-root SR / non-SR sequences; in ~30 % of the cases the names also carry a coding scheme '
+        'version (none / 1.0 / 2.0) and a short or long code value, and find() is asked for every name of the case '
+        'and for its sibling versions / forms, each with a CodedConcept and with a pydicom Code; kind multi: a '
+        'sequence, 1-3 sequences constructed from it or from one another (constructor with the same or other flags, '
+        'item.ContentSequence = seq, deepcopy, find, get_nodes) at any point of the history, and operations on any '
+        'member in any order, all members observed after every step; boundary-biased positions and slices (None, 0, +-len, '
         '+-(len+1), steps +-1,+-2,3,0; extended-slice lengths exact or off by one); malformed stream: junk '
         'objects, wrong relationship state, non-container at root, root&non-SR flags. non-trivial = at least 2 '
         'operations accepted and a final list with >= 2 items, or a refused operation; distinct by case hash')
@@ -66,25 +89,43 @@ def is_junk(it):
 # ---------------------------------------------------------------------------
 # items: JSON spec  <->  real object  <->  tuple (n, rel, cont, node, pay)
 # ---------------------------------------------------------------------------
+def nk(it):
+    """name key = equality class of the concept name under CodedConcept / Code __eq__:
+    base code n (0..2) x coding scheme version (0 = none, 1 = '1.0', 2 = '2.0') x form of the code value
+    (0 = CodeValue, 1 = LongCodeValue).  The same number is the model's [iname]."""
+    return it['n'] + 3 * it.get('ver', 0) + 9 * it.get('long', 0)
+
+
 def tup(it):
     # 'alt' (a different spelling of the code meaning) is deliberately NOT part of the tuple: CodedConcept
     # equality ignores the meaning, so such items are equal Datasets and share a name-index key
     if is_junk(it):
         return JUNK
-    return (it['n'], it['rel'], bool(it['cont']), bool(it['node']), it['v'])
+    return (nk(it), it['rel'], bool(it['cont']), bool(it['node']), it['v'])
 
 
 _REL = {0: None, 1: 'CONTAINS', 2: 'HAS PROPERTIES'}
 _REL_INV = {None: 0, 'CONTAINS': 1, 'HAS PROPERTIES': 2}
 
 
-def _name(n, alt=0, code=False):
+_VER = {0: None, 1: '1.0', 2: '2.0'}
+_VER_INV = {None: 0, '1.0': 1, '2.0': 2}
+_LONG = 'verif-long-code-value-'         # > 16 characters: stored as LongCodeValue
+
+
+def _name(n, alt=0, code=False, ver=0, long=0):
+    """the concept name as a highdicom CodedConcept or (code=True) as a pydicom Code tuple"""
     from highdicom.sr import CodedConcept
     meaning = f'name {n}' + (' alt' if alt else '')
+    value = (_LONG if long else '') + str(100 + n)
     if code:
         from pydicom.sr.coding import Code
-        return Code(str(100 + n), '99VERIF', meaning)
-    return CodedConcept(str(100 + n), '99VERIF', meaning)
+        return Code(value, '99VERIF', meaning, _VER[ver])
+    return CodedConcept(value, '99VERIF', meaning, _VER[ver])
+
+
+def _name_key(k, alt=0, code=False):
+    return _name(k % 3, alt=alt, code=code, ver=(k // 3) % 3, long=k // 9)
 
 
 def build(it):
@@ -96,10 +137,10 @@ def build(it):
         return Dataset()
     rel = _REL[it['rel']]
     if it['cont']:
-        x = ContainerContentItem(_name(it['n'], it['alt']), is_content_continuous=(it['v'] % 2 == 0),
+        x = ContainerContentItem(_name_key(nk(it), it['alt']), is_content_continuous=(it['v'] % 2 == 0),
                                  relationship_type=rel)
     else:
-        x = TextContentItem(_name(it['n'], it['alt']), f"v{it['v']}", relationship_type=rel)
+        x = TextContentItem(_name_key(nk(it), it['alt']), f"v{it['v']}", relationship_type=rel)
     if it['node']:
         x.ContentSequence = [TextContentItem(_name(9), 'child', relationship_type='CONTAINS')]
     return x
@@ -111,7 +152,11 @@ def render(x):
     if not isinstance(x, ContentItem):
         return [-1, 0, False, False, -1]       # something that is no content item sits in the sequence
     nm = x.ConceptNameCodeSequence[0]
-    n = int(nm.CodeValue) - 100
+    if 'LongCodeValue' in nm:
+        n = int(str(nm.LongCodeValue)[len(_LONG):]) - 100 + 9
+    else:
+        n = int(nm.CodeValue) - 100
+    n += 3 * _VER_INV[getattr(nm, 'CodingSchemeVersion', None)]
     rel = _REL_INV[getattr(x, 'RelationshipType', None)]
     cont = isinstance(x, ContainerContentItem)
     node = hasattr(x, 'ContentSequence')
@@ -159,7 +204,10 @@ def mentioned(op):
 
 
 def untup(t):
-    return {'n': t[0], 'alt': 0, 'rel': t[1], 'cont': t[2], 'node': t[3], 'v': t[4]}
+    it = {'n': t[0] % 3, 'alt': 0, 'rel': t[1], 'cont': t[2], 'node': t[3], 'v': t[4]}
+    if t[0] >= 3:
+        it['ver'], it['long'] = (t[0] // 3) % 3, t[0] // 9
+    return it
 
 
 def ref_apply(ref, op):
@@ -229,7 +277,8 @@ def simulate(case):
 # ---------------------------------------------------------------------------
 # generators
 # ---------------------------------------------------------------------------
-def gen_item(rng, root, sr, p_bad=0.12, p_lax=0.06, p_junk=0.03):
+def gen_item(rng, root, sr, p_bad=0.12, p_lax=0.06, p_junk=0.03, vm=False):
+    """vm: the case draws concept names WITH coding scheme versions / long code values too"""
     if rng.random() < p_junk:
         return rng.choice([JUNK, JUNKDS])
     want_rel = (not root) and sr
@@ -244,9 +293,15 @@ def gen_item(rng, root, sr, p_bad=0.12, p_lax=0.06, p_junk=0.03):
     cont = rng.random() < (0.9 if root else 0.3)
     if root and rng.random() < p_lax:
         cont = False
-    return {'n': rng.choice([0, 0, 1, 1, 2]), 'alt': 1 if rng.random() < 0.15 else 0,
-            'rel': (rng.choice([1, 1, 2]) if has_rel else 0), 'cont': cont,
-            'node': rng.random() < 0.3, 'v': rng.choice([0, 0, 1]) if cont else rng.choice([0, 0, 1, 1, 2])}
+    it = {'n': rng.choice([0, 0, 1, 1, 2]), 'alt': 1 if rng.random() < 0.15 else 0,
+          'rel': (rng.choice([1, 1, 2]) if has_rel else 0), 'cont': cont,
+          'node': rng.random() < 0.3, 'v': rng.choice([0, 0, 1]) if cont else rng.choice([0, 0, 1, 1, 2])}
+    if vm:
+        # few base codes, so that the same code recurs with the same and with another version
+        it['n'] = rng.choice([0, 0, 0, 1])
+        it['ver'] = rng.choice([0, 1, 1, 1, 2])
+        it['long'] = 1 if rng.random() < 0.15 else 0
+    return it
 
 
 def gen_pos(rng, n):
@@ -266,13 +321,13 @@ def slice_len(n, a, b, c):
     return len(range(*slice(a, b, c).indices(n)))
 
 
-def gen_op(rng, ref_len, root, sr):
+def gen_op(rng, ref_len, root, sr, vm=False):
     n = ref_len
     k = rng.choice(['append', 'append', 'extend', 'iadd', 'insert', 'insert', 'setint', 'setint',
                     'setslice', 'setslice', 'setslice', 'delint', 'delint', 'delslice', 'delslice',
                     'pop', 'remove', 'remove', 'reverse', 'reverse', 'clear' if rng.random() < 0.4 else 'pop',
                     'extend_self' if n <= 8 else 'reverse', 'iadd_self' if n <= 8 else 'pop'])
-    item = lambda **kw: gen_item(rng, root, sr, **kw)   # noqa: E731
+    item = lambda **kw: gen_item(rng, root, sr, vm=vm, **kw)   # noqa: E731
     if k == 'pop':
         return ['pop', None if rng.random() < 0.4 else gen_pos(rng, n)]
     if k == 'remove':
@@ -305,7 +360,7 @@ def gen_op(rng, ref_len, root, sr):
     return ['setslice', a, b, c, [item(p_bad=0.05, p_junk=0.02) for _ in range(m)]]
 
 
-def gen_init(rng, root, sr, valid=True):
+def gen_init(rng, root, sr, valid=True, vm=False):
     if root:
         m = rng.choice([0, 1, 1, 1, 2, 3])
     else:
@@ -313,7 +368,7 @@ def gen_init(rng, root, sr, valid=True):
     if valid:
         its = []
         for _ in range(m):
-            it = gen_item(rng, root, sr, p_bad=0, p_lax=0, p_junk=0)
+            it = gen_item(rng, root, sr, p_bad=0, p_lax=0, p_junk=0, vm=vm)
             if not sr:
                 it['rel'] = 0
             if root:
@@ -321,30 +376,53 @@ def gen_init(rng, root, sr, valid=True):
                 it['v'] = it['v'] % 2
             its.append(it)
         return its
-    its = [gen_item(rng, root, sr, p_bad=0.35, p_lax=0.3, p_junk=0.12) for _ in range(max(1, m))]
+    its = [gen_item(rng, root, sr, p_bad=0.35, p_lax=0.3, p_junk=0.12, vm=vm) for _ in range(max(1, m))]
     return its
 
 
+def all_ops(case):
+    """the operations of a case, whichever sequence of the family they address"""
+    return list(case['ops']) + [m[2] for m in case.get('mops', []) if m[0] == 'on']
+
+
 def probes(rng, case):
+    """probe items for index / in / count; also fixes case['names'], the names find() is asked for - each of them
+    once with a highdicom CodedConcept and once with an equal pydicom Code tuple"""
+    vm = case.get('vm', False)
     seen = []
-    for it in case['init'] + [i for op in case['ops'] for i in mentioned(op)]:
+    for it in case['init'] + [i for op in all_ops(case) for i in mentioned(op)]:
         if not is_junk(it) and it not in seen:
             seen.append(it)
     rng.shuffle(seen)
     qs = seen[:6]
     for _ in range(2):
-        it = gen_item(rng, case['root'], case['sr'], p_junk=0)
+        it = gen_item(rng, case['root'], case['sr'], p_junk=0, vm=vm)
         if it not in qs:
             qs.append(it)
     if rng.random() < 0.3:
         qs.append(rng.choice([JUNK, JUNKDS]))
+    if vm:
+        keys = []
+        for it in seen:
+            if nk(it) not in keys:
+                keys.append(nk(it))
+        names = keys[:4]
+        # the same code in another version / without version / in the other form must NOT find these items
+        for k in list(names[:2]):
+            for k2 in (k % 3 + 9 * (k // 9), k % 3 + 3 * rng.choice([1, 2]) + 9 * (k // 9), k % 9 + 9 * (1 - k // 9)):
+                if k2 not in names and len(names) < 7:
+                    names.append(k2)
+        case['names'] = sorted(names)
+    else:
+        case['names'] = [0, 1, 2]
     return qs
 
 
 def gen_history(rng, flavour, nops):
     root, sr = {'sr': (False, True), 'root': (True, True), 'nonsr': (False, False)}[flavour]
-    case = {'kind': 'hist_' + flavour, 'root': root, 'sr': sr, 'init': gen_init(rng, root, sr), 'ops': [],
-            'find_code': rng.random() < 0.3, 'reuse': rng.random() < 0.4}
+    vm = rng.random() < 0.3
+    case = {'kind': 'hist_' + flavour, 'root': root, 'sr': sr, 'vm': vm, 'init': gen_init(rng, root, sr, vm=vm),
+            'ops': [], 'reuse': rng.random() < 0.4}
     add_ops(rng, case, nops)
     case['qs'] = probes(rng, case)
     return case
@@ -353,7 +431,7 @@ def gen_history(rng, flavour, nops):
 def add_ops(rng, case, nops):
     for _ in range(nops):
         ref, _lax = simulate(case)
-        op = gen_op(rng, len(ref), case['root'], case['sr'])
+        op = gen_op(rng, len(ref), case['root'], case['sr'], vm=case.get('vm', False))
         if op[0] == 'remove' and ref and rng.random() < 0.75:
             op = ['remove', untup(rng.choice(ref))]      # an item that is in the list (equal, not identical)
         case['ops'].append(op)
@@ -366,15 +444,16 @@ def gen_fromseq(rng, i):
     """construction from plain pydicom Datasets: ContentSequence.from_sequence"""
     root, sr = [(False, True), (True, True), (False, False), (False, True), (True, False)][i % 5]
     valid = i % 3 != 0
-    its = gen_init(rng, root and sr, sr, valid=True)
+    vm = rng.random() < 0.35       # files that record the coding scheme version of the concept names
+    its = gen_init(rng, root and sr, sr, valid=True, vm=vm)
     if not its or rng.random() < 0.3:
-        its = its + gen_init(rng, root and sr, sr, valid=True)
+        its = its + gen_init(rng, root and sr, sr, valid=True, vm=vm)
     ds = [{'it': it, 'defect': None} for it in its]
     if not valid:
         # one or two datasets are malformed, or carry the wrong relationship state for this sequence
         for _ in range(rng.choice([1, 1, 2])):
             if not ds:
-                ds.append({'it': gen_item(rng, root, sr, p_bad=0, p_lax=0, p_junk=0), 'defect': None})
+                ds.append({'it': gen_item(rng, root, sr, p_bad=0, p_lax=0, p_junk=0, vm=vm), 'defect': None})
             d = rng.choice(ds)
             if rng.random() < 0.6:
                 d['defect'] = rng.choice(DEFECTS)
@@ -385,18 +464,96 @@ def gen_fromseq(rng, i):
                 if rng.random() < 0.3:
                     d['it']['cont'] = not d['it']['cont']
                     d['it']['v'] %= 2
-    case = {'kind': 'fromseq', 'root': root, 'sr': sr, 'ds': ds, 'init': [d['it'] for d in ds],
-            'copy': rng.random() < 0.6, 'ops': [], 'find_code': rng.random() < 0.3, 'reuse': False}
+    case = {'kind': 'fromseq', 'root': root, 'sr': sr, 'vm': vm, 'ds': ds, 'init': [d['it'] for d in ds],
+            'copy': rng.random() < 0.6, 'ops': [], 'reuse': False}
     add_ops(rng, case, rng.choice([1, 2, 3, 5]))
     case['qs'] = probes(rng, case)
     return case
 
 
-def alphabet(rng, root, sr, n):
+def sim_family(case):
+    """generator-side picture of a family: [[list, root, sr], ...] when exactly the items passing _check_item's
+    rule enter (as in simulate)"""
+    fam = [[[tup(i) for i in case['init']], case['root'], case['sr']]]
+    for m in case['mops']:
+        if not 0 <= m[1] < len(fam):
+            continue
+        ref, root, sr = fam[m[1]]
+        if m[0] == 'on':
+            fam[m[1]][0] = simulate({'root': root, 'sr': sr, 'init': [untup(t) for t in ref], 'ops': [m[2]]})[0]
+            continue
+        how = m[2]
+        if how[0] in ('ctor', 'setattr'):
+            r2, s2 = (how[1], how[2]) if how[0] == 'ctor' else (False, True)
+            if not ((r2 and not s2) or any(init_bad(t, r2, s2) for t in ref)):
+                fam.append([list(ref), r2, s2])
+        elif how[0] == 'deepcopy':
+            fam.append([list(ref), root, sr])
+        elif how[0] == 'nodes':
+            fam.append([[t for t in ref if t[3]], root, sr])
+        else:
+            fam.append([[t for t in ref if t[0] == how[1]], root, sr])
+    return fam
+
+
+def gen_derive(rng, fam):
+    src = rng.randrange(len(fam)) if rng.random() < 0.5 else 0
+    ref, root, sr = fam[src]
+    k = rng.choice(['ctor', 'ctor', 'ctor', 'setattr', 'setattr', 'deepcopy', 'find', 'nodes']
+                   if (root, sr) == (False, True) else ['ctor', 'ctor', 'ctor', 'deepcopy', 'find', 'nodes', 'setattr'])
+    if k == 'ctor':
+        r2, s2 = (root, sr) if rng.random() < 0.85 else rng.choice([(False, True), (True, True), (False, False)])
+        return ['derive', src, ['ctor', r2, s2]]
+    if k == 'find':
+        names = sorted({t[0] for t in ref}) or [0]
+        return ['derive', src, ['find', rng.choice(names + [rng.choice([0, 1, 2])]), rng.random() < 0.5]]
+    return ['derive', src, [k]]
+
+
+def gen_multi(rng, i):
+    """a sequence, sequences constructed FROM it (and from those), and operations on any of them in any order"""
+    flavour = ['sr', 'sr', 'sr', 'nonsr', 'root', 'sr'][i % 6]
+    root, sr = {'sr': (False, True), 'root': (True, True), 'nonsr': (False, False)}[flavour]
+    vm = rng.random() < 0.25
+    init = gen_init(rng, root, sr, vm=vm)
+    if len(init) < 2:
+        init = init + gen_init(rng, root, sr, vm=vm)
+    case = {'kind': 'multi', 'root': root, 'sr': sr, 'vm': vm, 'init': init, 'ops': [], 'mops': [],
+            'reuse': rng.random() < 0.4}
+
+    def an_op(target):
+        fam = sim_family(case)
+        ref, r, s_ = fam[target]
+        op = gen_op(rng, len(ref), r, s_, vm=vm)
+        if op[0] in ('extend_self', 'iadd_self') and len(ref) > 4:
+            op = ['reverse']
+        if op[0] == 'remove' and ref and rng.random() < 0.75:
+            op = ['remove', untup(rng.choice(ref))]
+        elif op[0] == 'append' and ref and rng.random() < 0.5:
+            # another item under a name the sequence already holds
+            t = rng.choice(ref)
+            op = ['append', dict(untup(t), v=(t[4] + 1) % (2 if t[2] else 3))]
+        return ['on', target, op]
+    for _ in range(rng.choice([0, 0, 1, 2])):
+        case['mops'].append(an_op(0))
+    case['mops'].append(gen_derive(rng, sim_family(case)))
+    for _ in range(rng.choice([2, 3, 4, 5, 6])):
+        fam = sim_family(case)
+        if len(fam) < 4 and rng.random() < 0.2:
+            case['mops'].append(gen_derive(rng, fam))
+        else:
+            case['mops'].append(an_op(rng.randrange(len(fam))))
+    case['qs'] = probes(rng, case)
+    return case
+
+
+def alphabet(rng, root, sr, n, vm=False):
     """a small systematic operation alphabet for the 2-operation histories"""
-    a = gen_item(rng, root, sr, p_bad=0, p_lax=0, p_junk=0)
+    a = gen_item(rng, root, sr, p_bad=0, p_lax=0, p_junk=0, vm=vm)
     b = dict(a, v=(a['v'] + 1) % 2)
     c = dict(a, n=(a['n'] + 1) % 3)
+    if vm:
+        c = dict(a, ver=(a['ver'] + 1) % 3)       # the same code in another version: a different name
     bad = dict(a, rel=0 if a['rel'] else 1)
     ops = [['append', a], ['append', c], ['append', bad], ['extend', [a, c]], ['extend', [a, a]], ['iadd', [c, a]],
            ['extend', [b, bad, c]], ['insert', 0, c], ['insert', -1, b], ['insert', n + 3, a],
@@ -417,11 +574,12 @@ def gen_pairs(rng, count):
     for _ in range(count):
         flavour = rng.choice(['sr', 'sr', 'root', 'nonsr'])
         root, sr = {'sr': (False, True), 'root': (True, True), 'nonsr': (False, False)}[flavour]
-        case = {'kind': 'hist_' + flavour, 'root': root, 'sr': sr, 'init': gen_init(rng, root, sr), 'ops': [],
-                'find_code': False, 'reuse': False}
+        vm = rng.random() < 0.25
+        case = {'kind': 'hist_' + flavour, 'root': root, 'sr': sr, 'vm': vm, 'init': gen_init(rng, root, sr, vm=vm),
+                'ops': [], 'reuse': False}
         for _ in range(2):
             ref, _lax = simulate(case)
-            case['ops'].append(rng.choice(alphabet(rng, root, sr, len(ref))))
+            case['ops'].append(rng.choice(alphabet(rng, root, sr, len(ref), vm=vm)))
         case['qs'] = probes(rng, case)
         out.append(case)
     return out
@@ -438,8 +596,10 @@ def gen_cases(rng, tier):
     cases += gen_pairs(rng, npairs)
     for i in range(nh // 8):
         root, sr = [(False, True), (True, True), (False, False), (True, False)][i % 4]
-        case = {'kind': 'init_err', 'root': root, 'sr': sr, 'init': gen_init(rng, root and sr, sr, valid=False),
-                'ops': [['append', gen_item(rng, root, sr)]], 'find_code': False, 'reuse': False}
+        vm = rng.random() < 0.2
+        case = {'kind': 'init_err', 'root': root, 'sr': sr, 'vm': vm,
+                'init': gen_init(rng, root and sr, sr, valid=False, vm=vm),
+                'ops': [['append', gen_item(rng, root, sr, vm=vm)]], 'reuse': False}
         case['qs'] = probes(rng, case)
         cases.append(case)
     # construction FROM an existing ContentSequence of another (or the same) kind: the items were
@@ -452,18 +612,24 @@ def gen_cases(rng, tier):
         if not init:
             init = gen_init(rng, vroot, sr, valid=True) or init
         case = {'kind': 'init_via', 'root': root, 'sr': sr, 'init': init, 'via': [vroot, sr],
-                'ops': [['append', gen_item(rng, root, sr)]], 'find_code': False, 'reuse': False}
+                'ops': [['append', gen_item(rng, root, sr)]], 'reuse': False}
         case['qs'] = probes(rng, case)
         cases.append(case)
     for i in range(nh // 5):
         cases.append(gen_fromseq(rng, i))
+    for i in range({'quick': 150, 'thorough': 4000, 'search': 1500}[tier]):
+        cases.append(gen_multi(rng, i))
     for _ in range(nh // 6):
         a = gen_item(rng, rng.random() < 0.5, True, p_bad=0.4, p_junk=0)
         b = dict(a)
+        if rng.random() < 0.4:
+            a['ver'], a['long'] = rng.choice([0, 1, 2]), rng.choice([0, 0, 1])
+            b = dict(a)
         if rng.random() < 0.75:
-            key = rng.choice(['n', 'alt', 'rel', 'cont', 'node', 'v'])
+            key = rng.choice(['n', 'alt', 'rel', 'cont', 'node', 'v', 'ver', 'long'])
             b[key] = {'n': (a['n'] + 1) % 3, 'alt': 1 - a['alt'], 'rel': (a['rel'] + 1) % 3,
-                      'cont': not a['cont'], 'node': not a['node'], 'v': (a['v'] + 1) % 2}[key]
+                      'cont': not a['cont'], 'node': not a['node'], 'v': (a['v'] + 1) % 2,
+                      'ver': (a.get('ver', 0) + rng.choice([1, 2])) % 3, 'long': 1 - a.get('long', 0)}[key]
             if b['cont']:
                 b['v'] %= 2
         cases.append({'kind': 'eq', 'a': a, 'b': b})
@@ -486,11 +652,18 @@ def gen_cases(rng, tier):
 # ---------------------------------------------------------------------------
 # implementation runner
 # ---------------------------------------------------------------------------
+def find_keys(case):
+    """the lookups made after every step: (name key, with a pydicom Code instead of a CodedConcept?)"""
+    if 'names' in case:
+        return [(k, False) for k in case['names']] + [(k, True) for k in case['names']]
+    return [(n, case.get('find_code', False)) for n in range(3)]     # cases recorded before 'names' existed
+
+
 def _observe(seq, case, mk):
     items = [render(x) for x in seq]
     finds = []
-    for n in range(3):
-        nm = _name(n, alt=(n == 1), code=case.get('find_code', False))
+    for k, code in find_keys(case):
+        nm = _name_key(k, alt=(k % 3 == 1), code=code)
         finds.append(catch(lambda: sorted(render(x) for x in seq.find(nm))))   # multiset: order is not observed
     idx = [catch(lambda q=q: int(seq.index(mk(q)))) for q in case['qs']]
     cont = [catch(lambda q=q: bool(mk(q) in seq)) for q in case['qs']]
@@ -569,6 +742,54 @@ def _run_ops(seq, c, mk):
     return out
 
 
+def _derive(seq, how):
+    """a new ContentSequence obtained from an existing one"""
+    import copy
+    from highdicom.sr import ContainerContentItem
+    from highdicom.sr.value_types import ContentSequence
+    k = how[0]
+    if k == 'ctor':
+        return ContentSequence(seq, is_root=how[1], is_sr=how[2])
+    if k == 'setattr':
+        # the everyday path: ContentItem.__setattr__ wraps the value in a new ContentSequence
+        g = ContainerContentItem(_name(8), relationship_type='CONTAINS')
+        g.ContentSequence = seq
+        return g.ContentSequence
+    if k == 'deepcopy':
+        return copy.deepcopy(seq)
+    if k == 'find':
+        return seq.find(_name_key(how[1], alt=(how[1] % 3 == 1), code=how[2]))
+    if k == 'nodes':
+        return seq.get_nodes()
+    raise AssertionError(k)
+
+
+def _run_mops(seq, c, mk):
+    """a family of sequences: after every step ALL members are observed"""
+    from highdicom.sr.value_types import ContentSequence
+    seqs = [seq]
+    out = [[_observe(seq, c, mk)]]
+    for m in c['mops']:
+        if not 0 <= m[1] < len(seqs):
+            e = Err('NoSequence')
+        elif m[0] == 'on':
+            try:
+                e = catch(lambda: _apply(seqs[m[1]], m[2], mk))
+            except DidNotTerminate:
+                out.append([Err('DidNotTerminate'), None])
+                break
+        else:
+            e = catch(lambda: _derive(seqs[m[1]], m[2]))
+            if not isinstance(e, Err):
+                if not isinstance(e, ContentSequence):
+                    e = Err('NotAContentSequence')
+                else:
+                    seqs.append(e)
+                    e = None
+        out.append([e, [_observe(t, c, mk) for t in seqs]])
+    return out
+
+
 def plain(ds):
     """the same attributes in plain pydicom Dataset / Sequence objects (what a file reader returns)"""
     from pydicom import Dataset
@@ -644,6 +865,8 @@ def run_impl(c):
     seq = catch(lambda: ContentSequence(items0, is_root=c['root'], is_sr=c['sr']))
     if isinstance(seq, Err):
         return seq
+    if k == 'multi':
+        return _run_mops(seq, c, mk)
     return _run_ops(seq, c, mk)
 
 
@@ -677,7 +900,7 @@ def cds(d):
         return '(DSet false 0 false false 0 0 0 0)'
     vt = 0 if defect == 'novt' else 3 if defect == 'badvt' else 2 if it['cont'] else 1
     kids = 2 if defect == 'kidnorel' else 3 if defect == 'kidbadvt' else 1 if it['node'] else 0
-    return (f"(DSet true {vt} {_b(defect != 'noval')} {_b(defect != 'noname')} {it['n']} {it['rel']} "
+    return (f"(DSet true {vt} {_b(defect != 'noval')} {_b(defect != 'noname')} {nk(it)} {it['rel']} "
             f"{kids} {it['v']})")
 
 
@@ -719,26 +942,53 @@ def cop0(op):
     raise AssertionError(k)
 
 
+def cderive(how):
+    k = how[0]
+    if k == 'ctor':
+        return f'DCtor {_b(how[1])} {_b(how[2])}'
+    if k == 'setattr':
+        return 'DCtor false true'        # ContentItem.__setattr__: ContentSequence(value), default flags
+    if k == 'deepcopy':
+        return 'DCopy'
+    if k == 'find':
+        return f'DFind {zlit(how[1])}'
+    if k == 'nodes':
+        return 'DNodes'
+    raise AssertionError(k)
+
+
+def cmop(m):
+    if m[0] == 'on':
+        return f'MOn {zlit(m[1])} ({cop(m[2])})'
+    return f'MDerive {zlit(m[1])} ({cderive(m[2])})'
+
+
 def coq_term(c):
     k = c['kind']
     if k == 'eq':
         return f"(run_eq {citem(c['a'])} {citem(c['b'])})"
     if k == 'slice':
         return f"(run_slice {zlit(c['n'])} {oz(c['a'])} {oz(c['b'])} {oz(c['c'])})"
+    names = '[' + '; '.join(zlit(n) for n, _ in find_keys(c)) + ']'
+    if k == 'multi':
+        mops = '[' + '; '.join(cmop(m) for m in c['mops']) + ']'
+        return (f"(run_multi {_b(c['root'])} {_b(c['sr'])} (FromList {citems(c['init'])}) {names} "
+                f"{citems(c['qs'])} {mops})")
     ops = '[' + '; '.join(cop(o) for o in c['ops']) + ']'
     if k == 'fromseq':
         ctor = '(FromSeq [' + '; '.join(cds(d) for d in c['ds']) + '])'
     else:
         ctor = f"(FromList {citems(c['init'])})"
-    return (f"(run_xhistory {_b(c['root'])} {_b(c['sr'])} {ctor} [0; 1; 2] "
+    return (f"(run_xhistory {_b(c['root'])} {_b(c['sr'])} {ctor} {names} "
             f"{citems(c['qs'])} {ops})")
 
 
 # ---------------------------------------------------------------------------
 # oracle: plain list + recomputed filter
 # ---------------------------------------------------------------------------
-def _check_obs(ref, obs, c, where):
-    root, sr = c['root'], c['sr']
+def _check_obs(ref, obs, c, where, root=None, sr=None):
+    root = c['root'] if root is None else root
+    sr = c['sr'] if sr is None else sr
     items, finds, idx, cont, nodes, r_root, r_sr, counts = obs
     got = [tuple(x) for x in items]
     if got != ref:
@@ -748,13 +998,13 @@ def _check_obs(ref, obs, c, where):
     for t in ref:
         if basic_bad(t, root, sr):
             return f'{where}: item {t} breaks the relationship-type rule of a {"root" if root else "non-root SR"} sequence'
-    for n in range(3):
+    for (n, code), f in zip(find_keys(c), finds):
         want = sorted(t for t in ref if t[0] == n)
-        f = finds[n]
+        key = f'name {n} as a pydicom Code' if code else f'name {n}'
         if isinstance(f, Err):
-            return f'{where}: find(name {n}) raised {f.kind}; {len(want)} item(s) with that name are in the list'
+            return f'{where}: find({key}) raised {f.kind}; {len(want)} item(s) with that name are in the list'
         if sorted(tuple(x) for x in f) != want:
-            return f'{where}: find(name {n}) = {f}, items with that name in the list: {want}'
+            return f'{where}: find({key}) = {f}, items with that name in the list: {want}'
     for q, i, m, cnt in zip(c['qs'], idx, cont, counts):
         t = tup(q)
         if cnt != (0 if t == JUNK else ref.count(t)):
@@ -781,13 +1031,50 @@ def _check_obs(ref, obs, c, where):
     return None
 
 
-def oracle(c, out):
-    k = c['kind']
-    if k == 'eq':
-        want = tup(c['a']) == tup(c['b'])
-        return None if out == want else f'item equality {out}, attribute tuples equal: {want}'
-    if k == 'slice':
-        return None        # the implementation side IS the interpreter; this kind only ties the model
+def _judge_op(ref, root, sr, op, e, got, where):
+    """one operation on one sequence, judged against the plain list: (list afterwards, message or None)"""
+    if isinstance(e, Err) and e.kind == 'DidNotTerminate':
+        return ref, f'{where}: did not terminate within {HANG_S} s (a plain list is doubled by this operation)'
+    xs = [tup(i) for i in entering(op)]
+    new, pyerr = ref_apply(ref, op)
+    junk = JUNK in [tup(i) for i in mentioned(op)]
+    bad = any(basic_bad(t, root, sr) for t in xs if t != JUNK)
+    lax = any(init_bad(t, root, sr) for t in xs if t != JUNK)
+    if e is None or isinstance(e, list):
+        if junk or bad or pyerr:
+            return ref, f'{where}: accepted, but must be refused (junk={junk}, rule broken={bad}, list error={pyerr})'
+        if op[0] == 'pop':
+            want = ref[-1 if op[1] is None else op[1]]
+            if e is None or tuple(e) != want:
+                return ref, f'{where}: pop returned {e}, the list had {want} there'
+        elif e is not None:
+            return ref, f'{where}: returned {e}'
+        return new, None
+    allowed = set()
+    if junk:
+        allowed.add('TypeError')
+    if bad or lax:
+        allowed.add('AttributeError')
+    if root and any(not t[2] for t in xs if t != JUNK):
+        allowed.add('TypeError')      # not a container at the root
+    if pyerr:
+        allowed.add(pyerr)
+    if e.kind not in allowed:
+        return ref, f'{where}: raised {e.kind}; acceptable here: {sorted(allowed) or "no error"}'
+    if op[0] in ('extend', 'iadd'):
+        kk = len(got) - len(ref)
+        if not (0 <= kk < len(xs)) or got != ref + xs[:kk]:
+            return ref, f'{where}: refused extend left {got}, not the list plus a proper prefix of the new items'
+        t = xs[kk]
+        if not (t == JUNK or init_bad(t, root, sr) or basic_bad(t, root, sr)):
+            return ref, f'{where}: extend stopped at admissible item {t}'
+        return ref + xs[:kk], None
+    # every other refused operation must leave the list as it was (checked by the caller)
+    return ref, None
+
+
+def _construction(c, out):
+    """('done', verdict) or ('go', plain list): the construction from c['init'] judged by the rule"""
     root, sr = c['root'], c['sr']
     ref = [tup(i) for i in c['init']]
     must = (root and not sr) or any(t == JUNK for t in ref) or \
@@ -795,53 +1082,98 @@ def oracle(c, out):
         any(d['defect'] for d in c.get('ds', []))        # from_sequence: a malformed dataset
     may = must or any(init_bad(t, root, sr) for t in ref if t != JUNK)
     if isinstance(out, Err):
-        return None if may else f'valid construction refused with {out.kind}'
+        return 'done', (None if may else f'valid construction refused with {out.kind}')
     if must:
-        return 'construction accepted items it must refuse'
+        return 'done', 'construction accepted items it must refuse'
+    return 'go', ref
+
+
+def oracle_multi(c, out):
+    """a family of sequences: every member is judged against a plain list OF ITS OWN.  An operation changes the
+    plain list of the member it addresses only, so a member that follows an operation made on another member -
+    or whose index does - is reported by the per-member checks."""
+    st, ref = _construction(c, out)
+    if st == 'done':
+        return ref
+    fam = [[ref, c['root'], c['sr']]]
+    m = _check_obs(ref, out[0][0], c, 'after construction')
+    if m:
+        return m
+    for j, (mop, (e, obss)) in enumerate(zip(c['mops'], out[1:]), 1):
+        where = f'after step {j} {mop[0]} {mop[2][0]} (sequence {mop[1]})'
+        if isinstance(e, Err) and e.kind == 'DidNotTerminate':
+            return f'{where}: did not terminate within {HANG_S} s'
+        i = mop[1]
+        if not 0 <= i < len(fam):
+            if e != Err('NoSequence'):
+                return f'{where}: harness: no such sequence, got {e}'
+        elif mop[0] == 'on':
+            if len(obss) != len(fam):
+                return f'{where}: harness: {len(obss)} sequences observed, {len(fam)} exist'
+            ref, root, sr = fam[i]
+            fam[i][0], m = _judge_op(ref, root, sr, mop[2], e, [tuple(x) for x in obss[i][0]], where)
+            if m:
+                return m
+        else:
+            how = mop[2]
+            src, root, sr = fam[i]
+            if how[0] in ('ctor', 'setattr'):
+                r2, s2 = (how[1], how[2]) if how[0] == 'ctor' else (False, True)
+                must = (r2 and not s2) or any(basic_bad(t, r2, s2) for t in src)
+                may = must or any(init_bad(t, r2, s2) for t in src)
+                if isinstance(e, Err):
+                    if not may:
+                        return f'{where}: construction from a sequence of admissible items refused with {e.kind}'
+                elif must:
+                    return f'{where}: the new sequence accepted items its own rule refuses'
+                else:
+                    fam.append([list(src), r2, s2])
+            elif isinstance(e, Err):
+                return f'{where}: raised {e.kind}'
+            elif how[0] == 'deepcopy':
+                fam.append([list(src), root, sr])
+            elif how[0] == 'nodes':
+                fam.append([[t for t in src if t[3]], root, sr])
+            else:
+                # find: exactly the items with that name, once each; their order is the index's business
+                if len(obss) != len(fam) + 1:
+                    return f'{where}: harness: {len(obss)} sequences observed, {len(fam) + 1} expected'
+                got = [tuple(x) for x in obss[-1][0]]
+                want = sorted(t for t in src if t[0] == how[1])
+                if sorted(got) != want:
+                    return f'{where}: find returned {got}, items with that name in the list: {want}'
+                fam.append([got, root, sr])
+        if len(obss) != len(fam):
+            return f'{where}: {len(obss)} sequences exist, {len(fam)} expected'
+        for n, ((ref, root, sr), obs) in enumerate(zip(fam, obss)):
+            m = _check_obs(ref, obs, c, f'{where}, sequence {n}', root, sr)
+            if m:
+                return m
+    return None
+
+
+def oracle(c, out):
+    k = c['kind']
+    if k == 'eq':
+        want = tup(c['a']) == tup(c['b'])
+        return None if out == want else f'item equality {out}, attribute tuples equal: {want}'
+    if k == 'slice':
+        return None        # the implementation side IS the interpreter; this kind only ties the model
+    if k == 'multi':
+        return oracle_multi(c, out)
+    root, sr = c['root'], c['sr']
+    st, ref = _construction(c, out)
+    if st == 'done':
+        return ref
     m = _check_obs(ref, out[0], c, 'after construction')
     if m:
         return m
     for j, (op, (e, obs)) in enumerate(zip(c['ops'], out[1:]), 1):
         where = f'after op {j} {op[0]}'
-        if isinstance(e, Err) and e.kind == 'DidNotTerminate':
-            return f'{where}: did not terminate within {HANG_S} s (a plain list is doubled by this operation)'
-        xs = [tup(i) for i in entering(op)]
-        got = [tuple(x) for x in obs[0]]
-        new, pyerr = ref_apply(ref, op)
-        junk = JUNK in [tup(i) for i in mentioned(op)]
-        bad = any(basic_bad(t, root, sr) for t in xs if t != JUNK)
-        lax = any(init_bad(t, root, sr) for t in xs if t != JUNK)
-        if e is None or isinstance(e, list):
-            if junk or bad or pyerr:
-                return f'{where}: accepted, but must be refused (junk={junk}, rule broken={bad}, list error={pyerr})'
-            if op[0] == 'pop':
-                want = ref[-1 if op[1] is None else op[1]]
-                if e is None or tuple(e) != want:
-                    return f'{where}: pop returned {e}, the list had {want} there'
-            elif e is not None:
-                return f'{where}: returned {e}'
-            ref = new
-        else:
-            allowed = set()
-            if junk:
-                allowed.add('TypeError')
-            if bad or lax:
-                allowed.add('AttributeError')
-            if root and any(not t[2] for t in xs if t != JUNK):
-                allowed.add('TypeError')      # not a container at the root
-            if pyerr:
-                allowed.add(pyerr)
-            if e.kind not in allowed:
-                return f'{where}: raised {e.kind}; acceptable here: {sorted(allowed) or "no error"}'
-            if op[0] in ('extend', 'iadd'):
-                kk = len(got) - len(ref)
-                if not (0 <= kk < len(xs)) or got != ref + xs[:kk]:
-                    return f'{where}: refused extend left {got}, not the list plus a proper prefix of the new items'
-                t = xs[kk]
-                if not (t == JUNK or init_bad(t, root, sr) or basic_bad(t, root, sr)):
-                    return f'{where}: extend stopped at admissible item {t}'
-                ref = ref + xs[:kk]
-            # every other refused operation must leave the list as it was (checked below)
+        got = [tuple(x) for x in obs[0]] if obs is not None else None
+        ref, m = _judge_op(ref, root, sr, op, e, got, where)
+        if m:
+            return m
         m = _check_obs(ref, obs, c, where)
         if m:
             return m
@@ -853,6 +1185,11 @@ def nontrivial(c, out):
         return True
     if isinstance(out, Err):
         return True
+    if c['kind'] == 'multi':
+        # a second sequence came into being and an operation was accepted afterwards
+        born = [j for j, (m, (e, _)) in enumerate(zip(c['mops'], out[1:])) if m[0] == 'derive' and e is None]
+        return bool(born) and any(m[0] == 'on' and not isinstance(e, Err)
+                                  for m, (e, _) in list(zip(c['mops'], out[1:]))[born[0] + 1:])
     accepted = sum(1 for e, _ in out[1:] if not isinstance(e, Err))
     if len(out) > 1 and out[-1][1] is None:
         return True
@@ -861,6 +1198,23 @@ def nontrivial(c, out):
 
 def shrink(c):
     if 'ops' not in c:
+        return
+    if c['kind'] == 'multi':
+        mops = c['mops']
+        for i in range(len(mops) - 1, -1, -1):
+            if mops[i][0] == 'on':
+                yield dict(c, mops=mops[:i] + mops[i + 1:])
+            else:
+                # dropping a derivation: the sequences born later move down by one
+                born = 1 + sum(1 for m in mops[:i] if m[0] == 'derive')
+                rest = [m for m in mops[i + 1:] if m[1] != born]
+                yield dict(c, mops=mops[:i] + [[m[0], m[1] - (m[1] > born), m[2]] for m in rest])
+        for i in range(len(c['init'])):
+            yield dict(c, init=c['init'][:i] + c['init'][i + 1:])
+        for i in range(len(c['qs'])):
+            yield dict(c, qs=c['qs'][:i] + c['qs'][i + 1:])
+        for i in range(len(c.get('names', []))):
+            yield dict(c, names=c['names'][:i] + c['names'][i + 1:])
         return
     for i in range(len(c['ops']) - 1, -1, -1):
         yield dict(c, ops=c['ops'][:i] + c['ops'][i + 1:])
@@ -872,6 +1226,8 @@ def shrink(c):
             yield dict(c, init=c['init'][:i] + c['init'][i + 1:])
     for i in range(len(c['qs'])):
         yield dict(c, qs=c['qs'][:i] + c['qs'][i + 1:])
+    for i in range(len(c.get('names', []))):
+        yield dict(c, names=c['names'][:i] + c['names'][i + 1:])
     for j, op in enumerate(c['ops']):
         xs = entering(op)
         if op[0] in ('extend', 'iadd', 'setslice') and len(xs) > 0:
